@@ -104,6 +104,11 @@ def h_qual(ctx, config, output_dtype, dropna, nrows, props, two_features=False):
         if nrows >= 2:
             o1 = list(d.transform(X.iloc[[0]])["f"])[0]
             ctx.require(o1 == col[0] or (isnan(o1) and isnan(col[0])), "C07.row-purity", f"row label depends on other rows: {o1!r} vs {col[0]!r}")
+    if set(props) & {"C04", "C07", "C16"}:
+        d.summary()
+        d.to_json()
+        again = list(d.transform(X)["f"])
+        ctx.require(all((a_ == b_) or (isnan(a_) and isnan(b_)) for a_, b_ in zip(again, col)), "C07.state-mutated-by-readonly-call", f"transform returns {again!r} after summary()/to_json(), {col!r} before")
     if "C16" in props:
         s = d.summary()
         recs = s.reset_index().to_dict("records")
